@@ -171,6 +171,8 @@ class Ctl:
             return False          # plain Lock: also blocks its own owner
         if kind == "wait" and not obj.is_set():
             return False
+        if kind == "blocked":
+            return False          # a blocking read on a socket without timeout whose peer never sends
         return True
 
     def step(self, i, choice=0):
